@@ -1,7 +1,7 @@
 """C19 — undecodable request parameters yield a client error naming the declared argument."""
 from ..facts import ty_adt, tystr, walk_ty, place_local, place_proj, op_place
 from ..cfg import CFG, Tracer, thaw
-from .. import dt, instance
+from .. import inline, dt, instance
 from . import c06
 
 SRV = "conjure_http::private::server::"
@@ -36,10 +36,43 @@ def upvar_operand_source(outer, closure_agg_stmt, k):
     return closure_agg_stmt["r"]["ops"][k]
 
 
+def check_match_form(ctx, c, name, rb, n, dec):
+    """form B: `match decoder(..) { Ok(v) => Ok(v), Err(e) => Err(e.with_safe_param("param", log_as)) }` (possibly in a private
+    tagging helper, already inlined into rb).  Returns True when the form was recognised (verdicts recorded)."""
+    cfg = CFG(rb)
+    vt = dt.value_tracer(rb)
+    tags = [(bb, t) for bb, t in rb.calls() if t["call"]["def"] == "conjure_error::error::Error::with_safe_param"]
+    if len(tags) != len(dec) or not tags:
+        return False
+    rets = dt.return_aliases(rb)
+    for di, (dbb, dt_) in enumerate(sorted(dec, key=lambda x: x[1]["ln"])):
+        mine = [(bb, t) for bb, t in tags if dt.derives_from_call(rb, t["args"][0], dbb, vt)]
+        if len(mine) != 1:
+            return False
+        tbb, tt = mine[0]
+        key = dt.resolve_const(rb, tt["args"][1])
+        val_ok = Tracer(rb).root_locals(tt["args"][2]) == {n}
+        # on the Err edge of the decoder result, the tagged error is what is returned as Err
+        on_err = any(dt.switch_atom(rb, sbb)[0] == "discr" and dt.derives_from_call(rb, {"cp": place_local(dt.switch_atom(rb, sbb)[1])}, dbb, vt)
+                     and dt.allowed_variants(al, av, ["Ok", "Err"]) == {"Err"} for sbb, al, av in dt.edge_conditions(cfg, tbb))
+        errs = [s_ for _, _, s_ in rb.stmts() if place_local(s_["d"]) in rets and s_["r"].get("agg") == "adt" and s_["r"].get("variant") == "Err" and dt.derives_from_call(rb, s_["r"]["ops"][0], tbb, vt)]
+        oks = [o for o in dt.ok_return_blocks(rb) if o[2]["r"].get("variant") == "Ok" and dt.derives_from_call(rb, o[2]["r"]["ops"][0], dbb, vt)]
+        untouched = [o for o in oks if not [c_ for c_ in dt.transforming_calls(rb, o[2]["r"]["ops"][0])[1] if c_ is not dt_]]
+        good = key is not None and key.get("str") == "param" and val_ok and on_err and len(errs) == 1 and len(oks) == 1 and len(untouched) == 1
+        ctx.check(good, "R19.1", rb.loc(tt["ln"]), f"{name}|param-name" + (f"|decode#{di}" if di else ""),
+                  f"{name}: the decoder's result must be returned as Ok(v) unchanged or Err(e.with_safe_param(\"param\", log_as)) with log_as being the helper's own last parameter",
+                  instance=f"{name}: match decode(..) {{ Ok(v) => Ok(v), Err(e) => Err(e.with_safe_param(\"param\", log_as)) }}")
+        ctx.ok("R19.1", rb.loc(dt_["ln"]), f"{name}: returns the decoder's Ok untouched (decoder call #{di}, match form)")
+    return True
+
+
 def check_helper(ctx, c, name, ob, rb):
     n = ob.argc  # log_as is the last parameter
+    rb = inline.expand(c, rb, depth=2, pred=lambda cb: cb.d.get("vis") != "pub" and cb.name not in ("only_item", "optional_item", "parse_auth_inner"))
     me = [(bb, t) for bb, t in rb.calls() if t["call"]["name"] == "map_err" and "Result" in t["call"]["def"]]
     dec = [(bb, t) for bb, t in rb.calls() if t["call"]["name"] in ("decode", "deserialize") and (t["call"].get("trait") or "").startswith("conjure_http::server::")]
+    if dec and not me and check_match_form(ctx, c, name, rb, n, dec):
+        return
     if not me or not dec:
         ctx.violation("R19.1", rb.loc(), f"{name}|shape", f"{name}: expected a decoder call whose error is mapped, found {len(dec)} decoder calls / {len(me)} map_err")
         return
@@ -132,51 +165,65 @@ def decoder_scope(c):
 
 
 def check_cardinality(ctx, c):
-    for name, exp_err in (("only_item", 2), ("optional_item", 1)):
+    """decision tables of only_item / optional_item over (first item present?, number of further items) by constant
+    propagation, private helpers interpreted along the path (so merging the two functions behind a shared helper, or
+    rewriting if/else as match, does not change the verdict)"""
+    from .. import minterp
+    F = ctx.F
+    OPTP, RES = "core::option::Option", "core::result::Result"
+    for name in ("only_item", "optional_item"):
         bs = [b for b in c.bodies if b.name == name and b.kind == "fn" and b.id.startswith("conjure_http::server::")]
         if len(bs) != 1:
             ctx.violation("R19.2", "conjure_http", f"{name}|anchor", f"{name} not found")
             continue
         b = bs[0]
-        cfg = CFG(b)
-        errs = [(bb, j, s) for bb, j, s in b.stmts() if place_local(s["d"]) == 0 and s["r"].get("variant") == "Err"]
-        conds = []
-        vt = dt.value_tracer(b)
-        for bb, j, s in errs:
-            cs = set()
-            for sbb, allowed, allv in dt.edge_conditions(cfg, bb):
-                atom = dt.switch_atom(b, sbb)
-                if atom[0] == "discr":
-                    srcs = Tracer(b).sources({"cp": place_local(atom[1])})
-                    if any(x[0] == "call" and b.blocks[x[1]]["t"]["call"]["name"] == "next" for x in srcs):
-                        vs = dt.allowed_variants(allowed, allv, ["None", "Some"])
-                        cs.add("next()==" + ("/".join(sorted(vs)) if len(vs) == 1 else "?"))
-                elif atom[0] == "bin":
-                    op, x, y = atom[1], atom[2], atom[3]
-                    pol = dt.bool_polarity(allowed)
-                    xc = any(s_[0] == "call" and b.blocks[s_[1]]["t"]["call"]["name"] == "count" for s_ in vt.sources(x))
-                    yv = dt.resolve_const(b, y)
-                    if xc and yv is not None and "int" in yv:
-                        o = op if pol else {"Gt": "Le", "Ge": "Lt", "Lt": "Ge", "Le": "Gt", "Eq": "Ne", "Ne": "Eq"}[op]
-                        cs.add(f"count(){o}{yv['int']}")
-            conds.append(frozenset(cs))
-        if name == "only_item":
-            want = [frozenset({"next()==None"}), frozenset({"next()==Some", "count()Gt0"})]
+        rows, bad, unsup = [], [], None
+        for first in (False, True):
+            for more in (0, 1, 2):
+                if not first and more:
+                    continue
+
+                def oracle(f, argv, first=first, more=more):
+                    nm = f.get("name")
+                    if nm == "next" and "Iterator" in f.get("def", ""):
+                        return minterp.adt(OPTP, 1, [("sym", "item")]) if first else minterp.adt(OPTP, 0, [])
+                    if nm == "count" and "Iterator" in f.get("def", ""):
+                        return more
+                    if nm in ("into_iter", "by_ref", "fuse", "peekable") and argv:
+                        return argv[0]
+                    return minterp.NO_VALUE
+                I = minterp.Interp(F, c, inline=lambda d_, rid: rid.startswith("conjure_http::server::") and c.body(rid) is not None and c.body(rid).d.get("vis") != "pub", max_depth=3)
+                I.call_oracle = oracle
+                try:
+                    r = I.run(b, [("sym", "it")] + [("sym", f"a{k}") for k in range(b.argc - 1)])
+                except minterp.Unsupported as e:
+                    unsup = str(e)
+                    continue
+                if not (minterp.is_adt(r) and r[1] == RES):
+                    unsup = f"result {r!r}"
+                    continue
+                if r[2] == 1:
+                    got = "Err"
+                else:
+                    v = r[3][0]
+                    if name == "optional_item":
+                        got = "Ok(None)" if (minterp.is_adt(v) and v[1] == OPTP and v[2] == 0) else ("Ok(Some(item))" if minterp.is_adt(v) and v[1] == OPTP and v[3] and v[3][0] == ("sym", "item") else f"Ok({v!r})")
+                    else:
+                        got = "Ok(item)" if v == ("sym", "item") else f"Ok({v!r})"
+                n_items = (1 + more) if first else 0
+                if name == "only_item":
+                    exp = "Ok(item)" if n_items == 1 else "Err"
+                else:
+                    exp = "Ok(None)" if n_items == 0 else ("Ok(Some(item))" if n_items == 1 else "Err")
+                rows.append((n_items, got))
+                if got != exp:
+                    bad.append(f"{n_items} value(s): {got}, specification {exp}")
+        if unsup and not rows:
+            ctx.violation("R19.2", b.loc(), f"{name}|cardinality", f"{name} left the analysable fragment: {unsup}")
         else:
-            want = [frozenset({"next()==Some", "count()Gt0"})]
-        norm = lambda cs: sorted(sorted(x) for x in cs)
-        alt = [frozenset(x.replace("count()Ge1", "count()Gt0").replace("count()Ne0", "count()Gt0") for x in c_) for c_ in conds]
-        ctx.check(norm(alt) == norm(want), "R19.2", b.loc(), f"{name}|cardinality",
-                  f"{name}: cardinality errors are produced under {norm(conds)}; specification: {norm(want)}", instance=f"{name}: Err under {norm(want)}")
-        if name == "optional_item":
-            nones = [(bb, j, s) for bb, j, s in b.stmts() if s["r"].get("agg") == "adt" and s["r"].get("variant") == "None"]
-            good = False
-            for bb, j, s in nones:
-                for sbb, allowed, allv in dt.edge_conditions(cfg, bb):
-                    atom = dt.switch_atom(b, sbb)
-                    if atom[0] == "discr" and dt.allowed_variants(allowed, allv, ["None", "Some"]) == {"None"}:
-                        good = True
-            ctx.check(good, "R19.2", b.loc(), f"{name}|absent", "optional_item: an absent parameter must yield Ok(None)", instance="optional_item: no value -> Ok(None)")
+            ctx.check(not bad and len(rows) == 4, "R19.2", b.loc(), f"{name}|cardinality",
+                      f"{name}: " + "; ".join(bad) + (f" ({unsup})" if unsup else "") + " — a single-valued argument must be accepted exactly when it occurs once" + (" (an optional one also when absent)" if name == "optional_item" else ""),
+                      instance=f"{name}: table over 0/1/2/3 values = {rows}")
 
 
 def run(ctx):
@@ -192,10 +239,10 @@ def run(ctx):
     # R19.2
     scope = decoder_scope(c)
     n = c06.check_error_classes(ctx, c, scope, "R19.2", expected=INVALID_ARG, label="parameter-decoding")
-    ctx.floor("R19.2", "error construction sites in parameter decoders", n, 16)
+    ctx.floor("R19.2", "error construction sites in parameter decoders", n, 6)
     auth = [b for b in c.bodies if b.id.startswith(SRV) and b.name in ("parse_auth_inner", "parse_header_auth", "parse_cookie_auth")]
     n2 = c06.check_error_classes(ctx, c, auth, "R19.2", expected=PERM_DENIED, label="auth-parsing")
-    ctx.floor("R19.2", "auth failure sites", n2, 4)
+    ctx.floor("R19.2", "auth failure sites", n2, 1)
     check_cardinality(ctx, c)
     # helpers themselves construct no other errors
     for name, (ob, rb) in hb.items():
@@ -334,7 +381,20 @@ def check_templates(ctx, tm):
                     var = last.strip().lstrip("#").strip()
                     binding = fn["lets"].get(var, "")
                     good = last.strip().startswith("#") and "log_as" in binding and "(" in binding and "ident" not in binding
-                    ctx.check(good, "R19.3", f"{fn['file']}:{q['line']}", f"{fn['name']}|{call['name']}|log-name",
+                    if not good and last.strip().startswith("#") and not binding:
+                        # the interpolated variable is a parameter of the template function: every caller must pass the
+                        # argument's declared log name (the result of ArgType::log_as / Arg::log_as)
+                        cm = ctx.F.crate("conjure_macros")
+                        gbs = [x for x in cm.bodies if x.kind in ("fn", "assoc_fn") and x.name == fn["name"]]
+                        if len(gbs) == 1:
+                            gb = gbs[0]
+                            ks = [k for k in range(1, gb.argc + 1) if gb.local_name(k) == var]
+                            callers = [(x, t) for x in cm.bodies for _, t in x.calls() if t["call"].get("id") == gb.id]
+                            if len(ks) == 1 and callers:
+                                good = all(any(c_["call"]["name"] == "log_as" for c_ in dt.transforming_calls(x, t["args"][ks[0] - 1])[1]) and not dt.transforming_calls(x, t["args"][ks[0] - 1])[0]
+                                           for x, t in callers)
+                                binding = f"parameter `{var}`, passed by {sorted({x.name for x, _ in callers})}"
+                    ctx.check(good, "R19.3", f"{fn['file'].split('/repo/')[-1]}:{q['line']}", f"{fn['name']}|{call['name']}|log-name",
                               f"macro template in {fn['name']}: the log-name argument of {call['name']} is `{last}` bound to `{binding}`; it must be the argument's declared log name (arg.log_as())",
                               instance=f"{fn['name']}: {call['name']}(.., {last}) with {var} = {binding}")
-    ctx.floor("R19.3", "helper-call templates in the endpoint macro", slots, 4)
+    ctx.floor("R19.3", "helper-call templates in the endpoint macro", slots, 2)
